@@ -46,7 +46,7 @@ def charts(g):
     snd.add_state(FinalState('F'), 'r')
     snd.state_for('r').on_exit = "send('bye', n=2)"
     snd.add_transition(Transition('A', 'F', event='end'))
-    snd.add_transition(Transition('A', 'A', event='go', guard='G()', action='ACT(send, notify)'))
+    snd.add_transition(Transition('A', 'A', event='go', guard='G()', action='ACT(send, notify, event)'))
     snd.add_transition(Transition('A', None, event='hello', action="REC('S', event)"))
     snd.add_transition(Transition('A', None, event='msg', action="REC('S', event)"))
     snd.add_transition(Transition('A', None, event='msg2', action="REC('S', event)"))
@@ -78,7 +78,7 @@ def harness(g, job, level, canary=False):
     cnt = [0]
     sent_spec = []
 
-    def ACT(send, notify):
+    def ACT(send, notify, event=None):
         cnt[0] += 1
         v = g.int('v%d' % cnt[0])
         d = g.real('d%d' % cnt[0], 0)
@@ -86,6 +86,11 @@ def harness(g, job, level, canary=False):
             send('msg', v=v, delay=d)
             sent_spec.append(('msg', {'v': v, 'delay': d}))
         notify('meta', z=1)
+        # user meta-events whose names resemble the one the forwarding listener reacts to ('event sent'), one of them
+        # carrying the consumed external event: none of this is forwarded
+        notify('sent', event=event)
+        notify('event', z=3)
+        notify('event sent ', z=4)
         if nsend >= 2:
             send('msg2', v=v + 1)
             sent_spec.append(('msg2', {'v': v + 1}))
@@ -180,7 +185,7 @@ def harness(g, job, level, canary=False):
         internal = [] if st is None else [e for e in st.sent_events if isinstance(e, InternalEvent)]
         # (the external self-loop re-enters A, whose entry code sends `hello` once more)
         g.prove(len(internal) == len(sent_spec) + (1 if fired else 0) and (not fired or len([e for e in st.sent_events
-                if isinstance(e, MetaEvent)]) == 1), 'macro_step_lists_what_was_sent', info)
+                if isinstance(e, MetaEvent)]) == 4), 'macro_step_lists_what_was_sent', info)
         exp = []
         cur = list(active)
         for ei, e in enumerate(internal):
